@@ -692,6 +692,22 @@ def rule_display(ctx, f):
     ctx.floor("C08-SIB-display", n, 5, "Display impls of operand types")
 
 
+def rule_parts(ctx, f):
+    ctx.rule("C08-G3", "a content stream split into several parts is parsed as ONE stream: Content::operations joins the decoded parts and parses once, after the "
+             "loop over the parts (operands and their operator may sit in different parts, 7.8.2)")
+    b = f.body("content::Content::operations")
+    if b is None:
+        ctx.lost("C08-G3", "content::Content::operations")
+        return
+    cfg = CFG(b)
+    loops = cfg.loops()
+    parses = [(bi, t) for bb in [b] + f.closures_of(b["id"]) for bi, t in F.calls(bb) if last_seg(F.callee_name(t)) in ("parse_ops", "parse") and "content::" in F.callee_name(t)]
+    inloop = [t for bi, t in F.calls(b) if last_seg(F.callee_name(t)) in ("parse_ops", "parse") and "content::" in F.callee_name(t) and any(bi in body for body in loops.values())]
+    ctx.floor("C08-G3", len(parses), 1, "parse call in Content::operations")
+    ctx.check(not inloop, "C08-G3", "Content::operations#one-parse", "the parts of a content stream are parsed one by one: operands at the end of a part are lost and the operator that "
+              "opens the next part is dropped", inloop[0]["span"] if inloop else b["span"], detail="join the parts, then parse_ops once")
+
+
 def run(ctx):
     f = F.load("default")
     ctx.count("bodies", len(f.bodies))
@@ -712,6 +728,7 @@ def run(ctx):
     rule_current_point(ctx, f, ast, rt, a)
     rule_enum_cast(ctx, f, ast)
     rule_display(ctx, f)
+    rule_parts(ctx, f)
     rule_drain(ctx, f)
     return ctx.finish(
         "Static analysis of the syntax trees of the operator dispatcher and the serializer (astx), joined with MIR facts for placeholder types "
